@@ -69,7 +69,7 @@ def _extra_cmd(ctx, binary, cmd, opts, tag, timeout=1800, env=None):
         raise vlib.Broken('%s timeout' % cmd)
     m = re.search(r'^%s (.*)$' % re.escape(tag), out, re.M)
     if not m:
-        if 'panic:' in out and '/queue/' in out:
+        if 'panic:' in out and 'chain33/queue' in out:
             return dict(crash=out[-6000:])
         raise vlib.Broken('%s died rc=%d:\n%s' % (cmd, rc, out[-3000:]))
     return json.loads(m.group(1))
@@ -138,7 +138,22 @@ def _echo_mutation(ev):
 def _validated(ctx, binary, recorder, opts, selftest=False):
     def rerun():
         return ctx.record(binary, recorder, opts)[1]
-    r, s = ctx.validate_recording(binary, 'Queue_Trace', 'Queue_Trace.cfg', recorder=recorder, opts=opts, dfs=True, timeout=3600)
+    try:
+        r, s = ctx.validate_recording(binary, 'Queue_Trace', 'Queue_Trace.cfg', recorder=recorder, opts=opts, dfs=True, timeout=3600)
+    except vlib.Broken as e:
+        # the recorder process died: a Go panic inside the queue package is a candidate "crash" (confirmed by a re-run)
+        if 'recorder failed' in str(e) and 'panic' in str(e) and 'chain33/queue' in str(e):
+            try:
+                rerun()
+            except vlib.Broken as e2:
+                if 'panic' in str(e2) and 'chain33/queue' in str(e2):
+                    sig = 'crash|process-died-in-queue'
+                    rp = _write_replay(ctx, recorder, sig, dict(observed=str(e2)[-3000:]))
+                    ctx.mismatches.append(dict(signature=sig, replay=rp, field='crash', expected='error returns, no crash',
+                                               observed=str(e2)[-1500:]))
+                    return None, {}
+            raise vlib.Broken('recorder crashed once, not on re-run: %s' % str(e)[-1500:])
+        raise
     _summary_mismatches(ctx, s, recorder, rerun)
     for k, v in (s.get('counters') or {}).items():
         c = ctx.extra.setdefault('recorded_counters', {})
